@@ -64,6 +64,8 @@ type idlPkg struct {
 	Ifaces []idlIface
 	Class  string
 	Roles  map[string]string // user identifier -> role in the IDL
+	// SweepKey identifies the single special (role, identifier) of a package of class sweep.
+	SweepKey string
 }
 
 func (p *idlPkg) role(id, role string) {
@@ -79,15 +81,20 @@ type nameSrc struct {
 	rng  *rand.Rand
 	pool []string
 	used map[string]bool
+	role string          // role the next names are picked for
+	bad  map[string]bool // "role/identifier" pairs known not to work: never drawn (class hygiene)
 }
 
 func (n *nameSrc) pick(scope map[string]bool, capTwin bool) string {
 	for try := 0; try < 200; try++ {
 		s := n.pool[n.rng.Intn(len(n.pool))]
+		if n.bad[n.role+"/"+s] {
+			continue
+		}
 		if n.rng.Intn(6) == 0 {
 			s = fmt.Sprintf("%s%d", s, n.rng.Intn(9))
 		}
-		if capTwin && n.rng.Intn(8) == 0 && len(scope) > 0 {
+		if capTwin && false && len(scope) > 0 { // capitalisation twins are swept deterministically (class sweep)
 			// capitalisation twin of a name already in scope
 			for o := range scope {
 				t := strings.ToUpper(o[:1]) + o[1:]
@@ -143,12 +150,16 @@ func genPackage(rng *rand.Rand, n int, class string) idlPkg {
 		pool = append(append([]string{}, nasty...), benign...)
 	}
 	ns := &nameSrc{rng: rng, pool: pool}
+	if class == "hygiene" {
+		ns.bad = knownBadPairs
+	}
 	pkg := idlPkg{Name: fmt.Sprintf("p%04d", n), Class: class}
 	var b strings.Builder
 	fmt.Fprintf(&b, "package %s\n", pkg.Name)
 	global := map[string]bool{}
 	var structs []string
 	for k := rng.Intn(4); k > 0; k-- {
+		ns.role = "struct-name"
 		name := strings.Title(ns.pick(global, false)) + "T"
 		if global[name] {
 			continue
@@ -158,6 +169,7 @@ func genPackage(rng *rand.Rand, n int, class string) idlPkg {
 		pkg.role(name, "struct-name")
 		fields := map[string]bool{}
 		for f := 1 + rng.Intn(4); f > 0; f-- {
+			ns.role = "struct-field"
 			fn := ns.pick(fields, false)
 			pkg.role(fn, "struct-field")
 			fmt.Fprintf(&b, "\t%s: %s\n", fn, genIDLType(rng, structs, 2, false))
@@ -166,6 +178,7 @@ func genPackage(rng *rand.Rand, n int, class string) idlPkg {
 		structs = append(structs, name)
 	}
 	for k := 1 + rng.Intn(3); k > 0; k-- {
+		ns.role = "interface-name"
 		iname := strings.Title(ns.pick(global, false)) + "I"
 		if global[iname] {
 			continue
@@ -176,6 +189,7 @@ func genPackage(rng *rand.Rand, n int, class string) idlPkg {
 		fmt.Fprintf(&b, "interface %s\n", iname)
 		actions := map[string]bool{}
 		for m := rng.Intn(6); m > 0; m-- {
+			ns.role = "method-name"
 			mn := ns.pick(actions, class == "hygiene")
 			pkg.role(mn, "method-name")
 			np := rng.Intn(6)
@@ -186,6 +200,7 @@ func genPackage(rng *rand.Rand, n int, class string) idlPkg {
 				same = genIDLType(rng, structs, 1, false) // every parameter of the same type
 			}
 			for q := 0; q < np; q++ {
+				ns.role = "method-parameter"
 				pn := ns.pick(params, class == "hygiene")
 				pkg.role(pn, "method-parameter")
 				ty := same
@@ -203,12 +218,14 @@ func genPackage(rng *rand.Rand, n int, class string) idlPkg {
 			it.Methods = append(it.Methods, idlMethod{mn, np, hasRet})
 		}
 		for s := rng.Intn(3); s > 0; s-- {
+			ns.role = "signal-name"
 			sn := ns.pick(actions, class == "hygiene")
 			pkg.role(sn, "signal-name")
 			np := 1 + rng.Intn(3)
 			params := map[string]bool{}
 			var ps []string
 			for q := 0; q < np; q++ {
+				ns.role = "signal-parameter"
 				pn := ns.pick(params, false)
 				pkg.role(pn, "signal-parameter")
 				ps = append(ps, pn+": "+genIDLType(rng, structs, 2, false))
@@ -217,9 +234,11 @@ func genPackage(rng *rand.Rand, n int, class string) idlPkg {
 			it.Signals = append(it.Signals, idlSignal{sn, np})
 		}
 		for s := rng.Intn(3); s > 0; s-- {
+			ns.role = "property-name"
 			pn := ns.pick(actions, class == "hygiene")
 			pkg.role(pn, "property-name")
 			params := map[string]bool{}
+			ns.role = "property-parameter"
 			ppn := ns.pick(params, false)
 			pkg.role(ppn, "property-parameter")
 			fmt.Fprintf(&b, "\tprop %s(%s: %s)\n", pn, ppn, genIDLType(rng, structs, 2, false))
@@ -230,6 +249,144 @@ func genPackage(rng *rand.Rand, n int, class string) idlPkg {
 	}
 	pkg.Text = b.String()
 	return pkg
+}
+
+// knownBadPairs holds the "role/identifier" pairs listed as known findings (KNOWN_FINDINGS.txt,
+// keys hygiene/role=R/ident=I): the random hygiene class never draws them, so that every package of
+// that class is expected to compile and to round-trip.
+var knownBadPairs = map[string]bool{}
+
+var reBadPair = regexp.MustCompile(`key=hygiene/role=([a-z-]+)/ident=([^/\s]+)`)
+
+func loadKnownBadPairs(root string) {
+	b, err := ioutil.ReadFile(root + "/KNOWN_FINDINGS.txt")
+	if err != nil {
+		return
+	}
+	for _, l := range strings.Split(string(b), "\n") {
+		if !strings.HasPrefix(l, "known:") {
+			continue
+		}
+		if m := reBadPair.FindStringSubmatch(l); m != nil {
+			knownBadPairs[m[1]+"/"+m[2]] = true
+		}
+	}
+}
+
+var sweepRoles = []string{"struct-name", "struct-field", "interface-name", "method-name", "method-parameter", "signal-name", "signal-parameter", "property-name", "property-parameter"}
+var twinKinds = []string{"method+method", "method+signal", "method+property", "signal+signal", "signal+property", "property+property"}
+
+// sweepPairs lists every (role, identifier) of the deterministic sweep.
+func sweepPairs() [][2]string {
+	var out [][2]string
+	for _, r := range sweepRoles {
+		for _, id := range nasty {
+			out = append(out, [2]string{r, id})
+		}
+	}
+	for _, k := range twinKinds {
+		out = append(out, [2]string{"capitalisation-twin", k})
+	}
+	return out
+}
+
+// genSweepPackage builds a small fixed package in which exactly one identifier is special: ident used
+// in the given role (or two action names that differ by the case of their first letter only).
+func genSweepPackage(n int, role, ident string) idlPkg {
+	pkg := idlPkg{Name: fmt.Sprintf("p%04d", n), Class: "sweep", SweepKey: "hygiene/role=" + role + "/ident=" + ident}
+	name := map[string]string{"struct-name": "BoxT", "struct-field": "width", "interface-name": "SweepI", "method-name": "compute", "method-parameter": "first",
+		"signal-name": "moved", "signal-parameter": "dx", "property-name": "gauge", "property-parameter": "level"}
+	if _, ok := name[role]; ok {
+		name[role] = ident
+		switch role {
+		case "struct-name":
+			name[role] = strings.Title(ident) + "T"
+		case "interface-name":
+			name[role] = strings.Title(ident) + "I"
+		}
+		pkg.role(name[role], role)
+	}
+	// the special identifier is used with a scalar, a nested container and a structure type
+	shapes := []string{"int32", "Vec<Map<int8,str>>", name["struct-name"]}
+	var b strings.Builder
+	fmt.Fprintf(&b, "package %s\nstruct %s\n\t%s: int32\n\tother: str\nend\n", pkg.Name, name["struct-name"], name["struct-field"])
+	fmt.Fprintf(&b, "struct WrapT\n\t%s: Vec<Map<int8,str>>\n\tmore: int8\nend\nstruct OuterT\n\t%s: %s\n\tlast: bool\nend\n", name["struct-field"], name["struct-field"], name["struct-name"])
+	fmt.Fprintf(&b, "struct WideT\n\t%s: Vec<str>\n\tf1: Vec<float64>\n\tf2: Vec<Vec<float32>>\n\tf3: Map<str,int64>\n\tf4: Vec<bool>\n\tf5: str\n\tf6: Vec<uint32>\n\tf7: Map<uint8,Vec<int16>>\n\tf8: Vec<int8>\n\tf9: Vec<uint64>\n\tf10: Vec<uint16>\n\tf11: any\n\tf12: %s\n\tf13: Vec<int32>\nend\n", name["struct-field"], name["struct-name"])
+	it := idlIface{Name: name["interface-name"]}
+	fmt.Fprintf(&b, "interface %s\n", it.Name)
+	fmt.Fprintf(&b, "\tfn %s(%s: int32, second: %s) -> int32\n", name["method-name"], name["method-parameter"], name["struct-name"])
+	it.Methods = append(it.Methods, idlMethod{name["method-name"], 2, true})
+	fmt.Fprintf(&b, "\tfn nested(%s: %s, w: WrapT) -> OuterT\n", name["method-parameter"], shapes[1])
+	it.Methods = append(it.Methods, idlMethod{"nested", 2, true})
+	fmt.Fprintf(&b, "\tfn boxed(lead: str, %s: %s)\n", name["method-parameter"], shapes[2])
+	it.Methods = append(it.Methods, idlMethod{"boxed", 2, false})
+	// next to parameters of every kind: the generated body then uses the predeclared identifiers and the
+	// generator's own locals that the special name may shadow
+	wide := "a1: Vec<float64>, a2: Vec<Vec<float32>>, a3: Map<str,int64>, a4: Vec<bool>, a5: str, a6: Vec<uint32>, a7: Map<uint8,Vec<int16>>, a8: Vec<int8>, a9: Vec<uint64>, a10: Vec<uint16>, a11: Vec<str>, a12: any, a13: Vec<int32>, a14: " + name["struct-name"]
+	fmt.Fprintf(&b, "\tfn wide(%s: int32, %s) -> Vec<Map<bool,float64>>\n", name["method-parameter"], wide)
+	it.Methods = append(it.Methods, idlMethod{"wide", 15, true})
+	fmt.Fprintf(&b, "\tfn wideLast(%s, %s: Vec<str>) -> Map<str,Vec<uint8>>\n", wide, name["method-parameter"])
+	it.Methods = append(it.Methods, idlMethod{"wideLast", 15, true})
+	sigs := [][3]string{{name["signal-name"], name["signal-parameter"], shapes[0]}, {"turned", name["signal-parameter"], shapes[1]}, {"packed", name["signal-parameter"], shapes[2]}}
+	wideSig := fmt.Sprintf("\tsig broad(%s: float64, %s)\n", name["signal-parameter"], wide)
+	props := [][3]string{{name["property-name"], name["property-parameter"], shapes[0]}, {"spread", name["property-parameter"], shapes[1]}, {"crate", name["property-parameter"], shapes[2]}}
+	if role == "capitalisation-twin" {
+		parts := strings.Split(ident, "+")
+		for k, kind := range parts {
+			tw := []string{"zoom", "Zoom"}[k]
+			pkg.role(tw, role)
+			switch kind {
+			case "method":
+				fmt.Fprintf(&b, "\tfn %s(q: int32) -> int32\n", tw)
+				it.Methods = append(it.Methods, idlMethod{tw, 1, true})
+			case "signal":
+				sigs = append(sigs, [3]string{tw, "q", "int32"})
+			case "property":
+				props = append(props, [3]string{tw, "q", "int32"})
+			}
+		}
+	}
+	for _, sg := range sigs {
+		fmt.Fprintf(&b, "\tsig %s(%s: %s, sb: str)\n", sg[0], sg[1], sg[2])
+		it.Signals = append(it.Signals, idlSignal{sg[0], 2})
+	}
+	b.WriteString(wideSig)
+	it.Signals = append(it.Signals, idlSignal{"broad", 15})
+	props = append(props, [3]string{"deep", name["property-parameter"], "Map<str,Vec<Map<uint8,float64>>>"}, [3]string{"whole", name["property-parameter"], "WideT"})
+	for _, pr := range props {
+		fmt.Fprintf(&b, "\tprop %s(%s: %s)\n", pr[0], pr[1], pr[2])
+		it.Props = append(it.Props, pr[0])
+	}
+	b.WriteString("end\n")
+	pkg.Ifaces = []idlIface{it}
+	// the same action names with other shapes: no parameter and no result, one parameter only
+	it2 := idlIface{Name: "Shape2I"}
+	fmt.Fprintf(&b, "interface %s\n\tfn %s()\n\tsig %s(only: int8)\n\tprop %s(%s: str)\nend\n", it2.Name, name["method-name"], name["signal-name"], name["property-name"], name["property-parameter"])
+	it2.Methods = []idlMethod{{name["method-name"], 0, false}}
+	it2.Signals = []idlSignal{{name["signal-name"], 1}}
+	it2.Props = []string{name["property-name"]}
+	it3 := idlIface{Name: "Shape3I"}
+	fmt.Fprintf(&b, "interface %s\n\tfn %s(%s: str)\n\tfn other() -> Vec<%s>\nend\n", it3.Name, name["method-name"], name["method-parameter"], name["struct-name"])
+	it3.Methods = []idlMethod{{name["method-name"], 1, false}, {"other", 0, true}}
+	pkg.Ifaces = append(pkg.Ifaces, it2, it3)
+	// and with the parameter lists of the generic object methods (terminate, property, registerEvent, setProperty)
+	for k, params := range []string{"objectID: uint32", "name: any", "objectID: uint32, actionID: uint32, handler: uint64", "name: any, value: any"} {
+		itk := idlIface{Name: fmt.Sprintf("Generic%dI", k)}
+		fmt.Fprintf(&b, "interface %s\n\tfn %s(%s)\nend\n", itk.Name, name["method-name"], params)
+		itk.Methods = []idlMethod{{name["method-name"], strings.Count(params, ":"), false}}
+		pkg.Ifaces = append(pkg.Ifaces, itk)
+	}
+	pkg.Text = b.String()
+	return pkg
+}
+
+// hygKey is the finding key of a failing package of class sweep / hygiene.
+func hygKey(p *idlPkg, msg, symptom string) string {
+	if p.SweepKey != "" {
+		return p.SweepKey + "/symptom=" + symptom
+	}
+	// class hygiene only draws identifiers that work on their own: nothing explains this failure
+	return "hygiene=unexplained/" + culprit(p, msg)
 }
 
 // ifaceMethods returns the method names (and field nodes) of an interface type declared in the file.
@@ -475,12 +632,13 @@ func main() {
 		os.Exit(2)
 	}
 	c := wk.Parse("C05", os.Args[2:])
+	c.NoViolationCap = true // the sweep reports every failing (role, identifier) pair
 	c05(c)
 	c.Done()
 }
 
 func c05(c *wk.Ctx) {
-	c.Note("rule", "each case is a generated well-formed IDL package (1-3 interfaces; 0-3 structs, shared and nested; methods with 0-5 parameters and optional return; signals with 1-3 parameters; single-parameter properties; all scalar types, any, Vec, Map, struct references; class tuples adds Tuple<...>; class hygiene draws identifiers from Go keywords, predeclared names, the generators' own local names, imported package names, reserved proxy method names and capitalisation twins). The IDL is first accepted by the real IDL parser, then the stub/proxy generator built from the current tree produces Go code; implementors and drivers are emitted by reading the generated code's own interfaces (go/ast). Oracle 1: everything compiles (go build; failing packages are identified from the compiler output and excluded, the rest is rebuilt). Oracle 2 (runner process, real directory server + session): for every method, reflection-filled random arguments arrive at the implementation equal and exactly once and the preset return value arrives at the caller equal; every signal emitted through the generated helper reaches the generated subscriber equal; property set/get/update round-trip and the change callback sees the written value. Distinct non-trivial = distinct packages that compiled and completed at least one round-trip check.")
+	c.Note("rule", "each case is a generated well-formed IDL package (1-3 interfaces; 0-3 structs, shared and nested; methods with 0-5 parameters and optional return; signals with 1-3 parameters; single-parameter properties; all scalar types, any, Vec, Map, struct references; class tuples adds Tuple<...>; class hygiene draws identifiers from Go keywords, predeclared names, the generators' own local names, imported package names and reserved proxy method names, leaving out the (role, identifier) pairs that are listed as known findings, so that every package of the class is expected to work; class sweep = a small fixed package with exactly ONE special identifier in ONE role, or two action names differing by the case of the first letter: every (role, identifier) pair in the thorough tier; in the quick tier the 45 pairs made of reserved object / proxy method names used as action names and of capitalisation twins, plus 115 seed-chosen ones; a failing pair is reported under hygiene/role=R/ident=I/symptom=generator-fails | declarations-missing | does-not-compile | round-trip-fails | runner-crashes). The IDL is first accepted by the real IDL parser, then the stub/proxy generator built from the current tree produces Go code; implementors and drivers are emitted by reading the generated code's own interfaces (go/ast). Oracle 1: everything compiles (go build; failing packages are identified from the compiler output and excluded, the rest is rebuilt). Oracle 2 (runner process, real directory server + session): for every method, reflection-filled random arguments arrive at the implementation equal and exactly once and the preset return value arrives at the caller equal; every signal emitted through the generated helper reaches the generated subscriber equal; property set/get/update round-trip and the change callback sees the written value. Distinct non-trivial = distinct packages that compiled and completed at least one round-trip check.")
 	root := os.Getenv("VERIF_ROOT")
 	if root == "" {
 		root = "/verif"
@@ -499,12 +657,36 @@ func c05(c *wk.Ctx) {
 		idx int
 	}
 	var pkgs []built
-	c.Cases("package", total, func(i int, rng *rand.Rand) {
+	loadKnownBadPairs(root)
+	// deterministic sweep: cases total .. total+nSweep-1 are the (role, identifier) pairs, in an order fixed
+	// by the seed; the quick tier takes the first 160 of that order, the thorough tier all of them
+	pairs := sweepPairs()
+	sweepOrder := rand.New(rand.NewSource(c.Seed ^ 0x5eed)).Perm(len(pairs))
+	// the reserved object / proxy method names used as action names come first (always in the quick tier)
+	reserved := map[string]bool{}
+	for _, r := range []string{"subscribe", "metaObject", "terminate", "call", "withContext", "registerEvent", "property", "setProperty", "properties", "proxy", "onTerminate", "activate", "receive"} {
+		reserved[r] = true
+	}
+	prio := func(k int) bool {
+		pr := pairs[k]
+		return reserved[pr[1]] && (pr[0] == "method-name" || pr[0] == "signal-name" || pr[0] == "property-name") || pr[0] == "capitalisation-twin"
+	}
+	sort.SliceStable(sweepOrder, func(a, b int) bool { return prio(sweepOrder[a]) && !prio(sweepOrder[b]) })
+	nSweep := c.Pick(160, len(pairs))
+	c.Cases("package", total+nSweep, func(i int, rng *rand.Rand) {
 		class := []string{"plain", "plain", "hygiene", "tuples"}[i%4]
 		if o := os.Getenv("C05_CLASS"); o != "" {
 			class = o
 		}
-		pkg := genPackage(rng, i, class)
+		var pkg idlPkg
+		if i >= total {
+			pr := pairs[sweepOrder[i-total]]
+			class = "sweep"
+			pkg = genSweepPackage(i, pr[0], pr[1])
+			c.Count("sweep_packages_one_special_identifier_in_one_role", 1)
+		} else {
+			pkg = genPackage(rng, i, class)
+		}
 		if len(pkg.Ifaces) == 0 {
 			return
 		}
@@ -518,8 +700,8 @@ func c05(c *wk.Ctx) {
 		out, err := run(dir, stubgen, "--idl", "pkg.idl", "--output", "gen.go", "--path", fmt.Sprintf("verif/gen/c05/s%02d/%s", c.Shard, pkg.Name))
 		if st, e := os.Stat(dir + "/gen.go"); err != nil || e != nil || st.Size() == 0 {
 			gkey := "generator=failed/" + culprit(&pkg, out) + "/class=" + class
-			if class == "hygiene" {
-				gkey = "hygiene/" + culprit(&pkg, out)
+			if class == "hygiene" || class == "sweep" {
+				gkey = hygKey(&pkg, out, "generator-fails")
 			}
 			c.Viol("package", i, gkey, "the generator failed on an IDL package the parser accepts: "+clip(out, 300), map[string]interface{}{"idl": pkg.Text})
 			os.RemoveAll(dir)
@@ -527,8 +709,8 @@ func c05(c *wk.Ctx) {
 		}
 		if err := emitDriver(dir, pkg); err != nil {
 			skey := "generated=unexpected-shape/class=" + class
-			if class == "hygiene" {
-				skey = "hygiene/role=interface-or-action-name-collision"
+			if class == "hygiene" || class == "sweep" {
+				skey = hygKey(&pkg, err.Error(), "declarations-missing")
 			}
 			c.Viol("package", i, skey, "generated code does not have the expected declarations: "+err.Error(), map[string]interface{}{"idl": pkg.Text})
 			os.RemoveAll(dir)
@@ -591,9 +773,8 @@ func c05(c *wk.Ctx) {
 			excluded[name] = true
 			cls := errClass(msgs[0]) + "/" + culprit(&b.pkg, msgs[0])
 			key := "compile=" + cls + "/class=" + b.pkg.Class
-			if b.pkg.Class == "hygiene" {
-				// one root cause per role: names used in that role are emitted without escaping
-				key = "hygiene/" + culprit(&b.pkg, strings.Join(msgs, " "))
+			if b.pkg.Class == "hygiene" || b.pkg.Class == "sweep" {
+				key = hygKey(&b.pkg, strings.Join(msgs, " "), "does-not-compile")
 			}
 			c.Viol("package", b.idx, key, "generated code does not compile: "+msgs[0], map[string]interface{}{"idl": b.pkg.Text, "errors": msgs})
 		}
@@ -645,7 +826,11 @@ func c05(c *wk.Ctx) {
 						key += "/cause=signal-name-shared-between-interfaces"
 					}
 				}
-				c.Viol("package", b.idx, key+"/class="+b.pkg.Class, r.What, map[string]interface{}{"idl": b.pkg.Text, "interface": r.Iface})
+				key += "/class=" + b.pkg.Class
+				if b.pkg.Class == "sweep" {
+					key = b.pkg.SweepKey + "/symptom=round-trip-fails"
+				}
+				c.Viol("package", b.idx, key, r.What, map[string]interface{}{"idl": b.pkg.Text, "interface": r.Iface})
 			case "ok":
 				c.Eval(r.Checks)
 				c.Count("roundtrip_checks", int64(r.Checks))
@@ -665,7 +850,11 @@ func c05(c *wk.Ctx) {
 			se := stderr.String()
 			kind, msg, site := wk.ClassifyCrash(se)
 			_ = kind
-			c.Viol("package", b.idx, "runner=crashed/site="+site+"/msg="+msg+"/class="+b.pkg.Class, "the runner died while driving generated code: "+clip(se, 300), map[string]interface{}{"idl": b.pkg.Text, "stderr": clip(se, 4000)})
+			ckey := "runner=crashed/site=" + site + "/msg=" + msg + "/class=" + b.pkg.Class
+			if b.pkg.Class == "sweep" {
+				ckey = b.pkg.SweepKey + "/symptom=runner-crashes"
+			}
+			c.Viol("package", b.idx, ckey, "the runner died while driving generated code: "+clip(se, 300), map[string]interface{}{"idl": b.pkg.Text, "stderr": clip(se, 4000)})
 		}
 	case <-time.After(20 * time.Minute):
 		cmd.Process.Kill()
